@@ -10,10 +10,14 @@ PROP = "C04"
 def run(tier, seed, replay=None):
     vlib.build_harness()
     quick = tier == "quick"
-    cfgs = ["A_b1_stop", "A_b2_stop", "A_b2_spawn_stop", "B_b1", "F_b1_stop"]
+    cfgs = ["A_b1_stop", "A_b2_stop", "A_b2_spawn_stop", "B_b1", "F_b1_stop",
+            # Stop called twice by overlapping callers; the rerunner's context cancelled by its owner; both
+            "A1_b1_stop2", "A1_b1_pcancel", "A1_b1_pcancel_stop2"]
     if not quick:
-        cfgs += ["F_b2_stop", "D_b1_stop", "C1_b1_fail_stop"]
+        cfgs += ["F_b2_stop", "D_b1_stop", "C1_b1_fail_stop", "A_b2_pcancel_stop2"]
     states, trans, notes = rx.model_check(cfgs, coverage=not quick)
+    # StopWaits = FALSE ("Stop returns at once when the context is already cancelled") must break StopFinal
+    notes += rx.guards(["A1_b1_pcancel_nowait", "A1_b1_stop2_nowait"])
     if not quick:
         s2, n2 = rx.simulate(["B_b2", "D_b2"], 20000, 150, seed)
         states += s2
@@ -30,7 +34,8 @@ def run(tier, seed, replay=None):
         "evaluations": st["scenarios"],
         "distinct_nontrivial": st["distinct"],
         "rule": "scenario = one seeded run of real Rerunner(s) over shape A (two strobed resources), B (two rerunners "
-                "sharing one) or F (per-run resource + strobed resource), with 0-3 data changes, optional concurrent Stop, "
+                "sharing one) or F (per-run resource + strobed resource), with 0-3 data changes, optional concurrent Stop (once, twice by overlapping callers, after the owner cancelled the "
+                "rerunner's context, or both), "
                 "random yields/sleeps at the hooks; non-trivial = at least one data change; distinct = different event "
                 "sequence (counted over the whole recorded event list)",
         "samples": st["samples"],
